@@ -380,6 +380,7 @@ def rule_driver(r):
             "python visits every mesh point exactly once")
 
 
+from . import extra3 as _x3
 RULES = [
     ("R-C09-driver", 13, "both paths visit every mesh point exactly once", rule_driver),
     ("R-C09-result-layout", 125, "result layout three ways", make_c_rule("R-C09-result-layout", py_layout)),
@@ -388,6 +389,7 @@ RULES = [
     ("R-C09-args", 700, "call arguments in table order at every call site of every unit", make_c_rule("R-C09-args", py_args)),
     ("R-C09-codegen", 14, "declaration generators and python vectorisation", rule_codegen),
     ("R-C09-validate", 26, "validation raise discipline and reachability", rule_validate),
+    ("R-C09-scan", 4, "source scans in make_source see all model code", _x3.rule_c09_scan),
 ]
 
 
